@@ -1,5 +1,5 @@
 """C09 - uncompact returns exactly the descendants at the target resolution."""
-from .. import core, gen, spec
+from .. import bulk, core, gen, spec
 
 LEVEL = "proof"
 MAXFAN = 4 ** 8
@@ -108,7 +108,9 @@ def run(run):
         kinds[k] = kinds.get(k, 0) + 1
         if a.startswith("ok ") and "," in a:
             run.nontrivial.add(q)
-    run.rule = ("random lists (0..9 cells, mixed resolutions incl. world/base/quintant cells, duplicates) x targets -1..29 with total fan-out <= 4^8, "
+    # bulk: expansions with 6*10^4 .. 6*10^6 results from lists of 5..29 cells (lengths coprime to small thread counts), mixed resolutions
+    bulk.check(run, bulk.uncompact_requests(run), "uncompact (bulk)", profiles=("release", "debug"))
+    run.rule = ("bulk expansions (lists of 5..29 cells, 6e4..6e6 results, mixed resolutions; digest vs model, length and id sum vs the tree in closed form); random lists (0..9 cells, mixed resolutions incl. world/base/quintant cells, duplicates) x targets -1..29 with total fan-out <= 4^8, "
                 "20% structured lists (runs of consecutive siblings expanded by 3-5 levels with cells already at the target resolution in between), 15% inputs possibly finer than the target, out-of-range targets; oracle = independent tree semantics, per-input blocks in input order; "
                 "non-trivial = distinct requests whose result has more than one cell")
     run.samples = [{"request": reqs[i][:200], "impl": impl[i][:200], "model": model[i][:200]} for i in rng.sample(range(len(reqs)), 6)]
